@@ -67,7 +67,11 @@ impl Spec {
             Spec::Sync => "sync".into(),
             Spec::Fan(b) => format!("fan {}", *b as u8),
             Spec::Reads(b) => format!("reads {}", *b as u8),
-            Spec::CpuGpio(v) => format!("cpugpio {v}"),
+            Spec::CpuGpio(v) => {
+                // only PA5 (0x20) and PA7 (0x80) exist; the datagram is built from those two bits
+                assert!(v & !0xA0 == 0, "cpugpio spec value must be a combination of 0x20 and 0x80");
+                format!("cpugpio {v}")
+            }
             Spec::GpioIn(v) => format!("gpioin {v}"),
             Spec::Debug(v) => format!("debug {:x} {:x} {:x} {:x}", v[0], v[1], v[2], v[3]),
             Spec::PhaseCorr(s) => format!("phasecorr {s}"),
